@@ -47,6 +47,8 @@ OpProp(op, kind) ==
    ELSE IF op \in {"reserve", "shrink_to", "shrink_to_fit", "with_capacity", "new"} THEN {"C08"} \cup KindProp(kind)
    ELSE KindProp(kind))
 SafetyProps == {"C02", "C04", "C05", "C13"}
+\* invariant clauses the iterators rely on directly
+IterInv == {"I1 shape", "I2 mirror bytes", "I3 items = number of FULL bytes", "I9 FULL <=> slot holds an element"}
 OpForms == {"op_or", "op_and", "op_xor", "op_sub"}
 
 VARIABLES l,      \* next line of the trace
@@ -391,7 +393,9 @@ OpStep(e) ==
       invFind == invd \ invStruct
       bad == (IF ~chkPanic THEN {<<"unexpected panic inside a safe call: " \o e.pn, SafetyProps \cup opp>>} ELSE {})
              \cup (IF ~chkLive THEN {<<"liveness of tables", SafetyProps>>} ELSE {})
-             \cup {<<"structural invariant violated on the observed state: " \o m, SafetyProps \cup opp \cup {"C08"}>> : m \in invStruct}
+             \* (the count-terminated iterators are exact iff items = #FULL and FULL <=> slot initialised: such a state violates C09 as it stands)
+             \cup {<<"structural invariant violated on the observed state: " \o m,
+                     SafetyProps \cup opp \cup {"C08"} \cup (IF m \in IterInv THEN {"C09"} ELSE {})>> : m \in invStruct}
              \cup {<<"findability invariant violated on the observed state: " \o m, opp \cup KindProp(hd.kind)>> : m \in invFind}
              \cup (IF ~chkRet THEN {<<"result differs from the abstract specification", opp>>} ELSE {})
              \cup (IF ~chkAbs THEN {<<"contents differ from the abstract specification", opp>>} ELSE {})
@@ -474,7 +478,7 @@ FaultStep(e) ==
       grew == \E i \in 1..Len(e.al) : e.al[i][1] = 1
       touched == {t} \cup (IF e.op \in {"clone"} THEN {u} ELSE {})
       bad ==
-           {<<"after a callback panic: " \o m, {"C04", "C02"}>> : m \in invd}
+           {<<"after a callback panic: " \o m, {"C04", "C02"} \cup (IF m \in IterInv THEN {"C09"} ELSE {})>> : m \in invd}
         \cup (IF \E i \in live : obsX[i].len # Cardinality(Elems(obsT[i])) \/ obsX[i].cap < obsX[i].len
              THEN {<<"after a callback panic: len() differs from the number of stored elements", {"C04"}>>} ELSE {})
         \cup (IF hd.tr = 1 /\ (~NoDupSeq(e.dr) \/ dropped \cap present # {})
@@ -500,7 +504,8 @@ FaultStep(e) ==
       \* clone_from whose element Clone panics: the inner guard drops the clones made so far, the outer guard leaves the
       \* target empty with the SOURCE's bucket count (clear_no_drop after the reallocation); clone(): the target is untouched
       cloneStrict == (e.pn = "clone" /\ e.op = "clone_from" /\ t \in live /\ u >= 1 /\ u <= Len(tb) /\ tb[u].mask # 0)
-                       => obsT[t] = CloneFrom(pre, tb[u], 1).t
+                       \* (HashTable does not override clone_from: it is `*self = source.clone()`, a panic leaves the target untouched)
+                       => obsT[t] = (IF hd.kind = "table" THEN pre ELSE CloneFrom(pre, tb[u], 1).t)
       strictOK == (strictKnown => (expR.st = "unwound" /\ (t \in live => expR.t = obsT[t]))) /\ cloneStrict
   IN /\ IF mine # {} THEN Fail(l, {b[1] : b \in mine}) ELSE TRUE
      /\ IF bad # {} /\ mine = {} THEN TLCSet(46, TLCGet(46) + 1) /\ (IF TLCGet(47) = <<>> THEN TLCSet(47, <<l, e.op, {b[1] : b \in bad}>>) ELSE TRUE) ELSE TRUE
@@ -538,7 +543,8 @@ ChaosStep(e) ==
       dropped == SeqToSet(e.dr)
       movedOut == IF e.op \in {"drain", "extract_if", "into_iter", "t_extract_if"} THEN IdsOfY(e)     \* yielded to the caller
                   ELSE IF e.op \in {"remove", "remove_entry", "insert", "e_remove", "e_remove_entry", "rc_remove", "re_remove",
-                                    "e_occ_insert", "e_into_key", "try_insert", "take", "replace"}
+                                    "e_occ_insert", "e_into_key", "try_insert", "take", "replace", "t_remove", "t_remove_reinsert",
+                                    "s_entry_remove", "s_entry_into_value"}
                   THEN before \ (present \cup dropped) ELSE {}      \* returned to the caller (dropped by the harness after the call)
       forgot == e.op = "drain" /\ e.n = 1
       unacc == before \ (present \cup dropped \cup movedOut)
